@@ -89,7 +89,8 @@ theorem elect {N : Nat} {s : State} (hR : Reachable N s) {c : Nat} (hc : c < N)
       (∀ d, d < N → (s.nodes d).term < (s'.nodes c).term) ∧
       (∀ d, d < N → (s'.nodes d).term = (s'.nodes c).term) ∧
       (s'.nodes c).log = (s.nodes c).log ++ [⟨(s'.nodes c).term, 0⟩] ∧
-      (s'.nodes c).commit = (s.nodes c).commit := by
+      (s'.nodes c).commit = (s.nodes c).commit ∧
+      (∀ x, N ≤ x → s'.nodes x = s.nodes x) := by
   obtain ⟨M, hM⟩ := exists_bound (fun d => (s.nodes d).term) N
   -- (a) step down if leading
   obtain ⟨as0, s0, hnf0, hrun0, hnl0, hT0, hlog0, hcm0, hfr0⟩ :
@@ -138,10 +139,11 @@ theorem elect {N : Nat} {s : State} (hR : Reachable N s) {c : Nat} (hc : c < N)
     (∀ d ∈ rest, d < N ∧ d ≠ c ∧ Msg.reqVote T c d (L.length - 1) (lastTerm L) ∈ s'.msgs ∧
         (s'.nodes d).term < T ∧ (s'.nodes d).log = (s.nodes d).log) ∧
     rest.Nodup ∧
-    (∀ d, d < N → d ≠ c → d ∉ rest → (s'.nodes d).term = T)
+    (∀ d, d < N → d ≠ c → d ∉ rest → (s'.nodes d).term = T) ∧
+    (∀ x, N ≤ x → s'.nodes x = s.nodes x)
   have hE0 : IE (others N c) s2 := by
     refine ⟨hR2, hTc2, by rw [hcm2, hcm1, hcm0], ?_, ?_, others_nodup N c,
-      fun d h1 h2 h3 => absurd (mem_others.mpr ⟨h1, h2⟩) h3⟩
+      fun d h1 h2 h3 => absurd (mem_others.mpr ⟨h1, h2⟩) h3, fun x hx => hoth2 x (by omega)⟩
     · rcases hcase2 with ⟨_, h1, h2⟩ | ⟨h0, h1, h2, h3⟩
       · exact Or.inl ⟨h1, h2⟩
       · refine Or.inr ⟨h1, h2, ?_, by rw [h3]; exact h0⟩
@@ -149,9 +151,9 @@ theorem elect {N : Nat} {s : State} (hR : Reachable N s) {c : Nat} (hc : c < N)
     · intro d hd
       obtain ⟨hdN, hdc⟩ := mem_others.mp hd
       exact ⟨hdN, hdc, hreq2 d hd, by rw [hoth2 d hdc]; exact hjT d hdN, by rw [hoth2 d hdc]⟩
-  obtain ⟨asE, sE, hnfE, hrunE, hRE, hTE, hcmE, hcaseE, _, _, hdoneE⟩ :=
+  obtain ⟨asE, sE, hnfE, hrunE, hRE, hTE, hcmE, hcaseE, _, _, hdoneE, hobsE⟩ :=
     run_foreach (N := N) IE (by
-      intro d rest s' ⟨hR', hT', hcm', hcase', hrest', hnd', hdone'⟩
+      intro d rest s' ⟨hR', hT', hcm', hcase', hrest', hnd', hdone', hobs'⟩
       obtain ⟨hdN, hdc, hreq, hdT, hdlog⟩ := hrest' d List.mem_cons_self
       have hdnr : d ∉ rest := (List.nodup_cons.mp hnd').1
       obtain ⟨s3, hs3, hfr3, hT3, _, _, _, _, hmsgs3⟩ :=
@@ -164,7 +166,8 @@ theorem elect {N : Nat} {s : State} (hR : Reachable N s) {c : Nat} (hc : c < N)
       have hrun : run N s' [.recvReqVote d (.reqVote T c d (L.length - 1) (lastTerm L)),
           .recvVote c (.vote T d c)] = some s4 := run_cons_some hs3 (run_one hs4)
       refine ⟨_, s4, noFault_of_forall (by simp [Action.isFault]), hrun, reachable_of_run hR' hrun,
-        by rw [hT4, hc3]; exact hT', by rw [hcm4, hc3]; exact hcm', ?_, ?_, (List.nodup_cons.mp hnd').2, ?_⟩
+        by rw [hT4, hc3]; exact hT', by rw [hcm4, hc3]; exact hcm', ?_, ?_, (List.nodup_cons.mp hnd').2, ?_,
+        fun x hx => by rw [hfr4 x (by omega), hfr3 x (by omega)]; exact hobs' x hx⟩
       · rw [hc3] at hcase4
         rcases hcase' with ⟨hr', hl'⟩ | ⟨hr', hl', hv', hm'⟩
         · rcases hcase4 with ⟨h, _⟩ | ⟨h, _⟩ | ⟨_, h⟩
@@ -194,7 +197,7 @@ theorem elect {N : Nat} {s : State} (hR : Reachable N s) {c : Nat} (hc : c < N)
       rw [hv] at hm
       have : isMajority N N = true := by rw [isMajority_iff]; omega
       rw [this] at hm; cases hm
-  refine ⟨_, sE, ?_, run_append_some hrun2 hrunE, hRE, hldr.1, ?_, ?_, by rw [hldr.2, hTE, hL], hcmE⟩
+  refine ⟨_, sE, ?_, run_append_some hrun2 hrunE, hRE, hldr.1, ?_, ?_, by rw [hldr.2, hTE, hL], hcmE, hobsE⟩
   · exact (hnf0.append ((NoFault.replicate rfl).append (noFault_of_forall (by simp [Action.isFault])))).append hnfE
   · intro d hd; rw [hTE]; exact hjT d hd
   · intro d hd
@@ -206,15 +209,25 @@ theorem elect {N : Nat} {s : State} (hR : Reachable N s) {c : Nat} (hc : c < N)
 before: any interleaving of elections, partial replication, snapshots, message loss, restarts, stale
 messages still in flight — there is a continuation without any fault action (no restart, no message
 loss; stale messages just stay in flight) after which one voter leads a term above every earlier
-voter term and every voter holds the leader's log, has committed and applied all of it. -/
-theorem no_wedge_run {N : Nat} {s : State} (hN : 0 < N) (hR : Reachable N s) :
-    ∃ as s' c, NoFault as ∧ run N s as = some s' ∧ Converged N s' c ∧
+voter term and every voter and every listed observer holds the leader's log, has committed and applied
+all of it.  (`hobsT`: an observer's term was learnt from a voter.) -/
+theorem no_wedge_run {N : Nat} {s : State} (obs : List Nat) (hobs : ∀ o ∈ obs, N ≤ o)
+    (hobsT : ∀ o ∈ obs, ∃ d, d < N ∧ (s.nodes o).term ≤ (s.nodes d).term)
+    (hN : 0 < N) (hR : Reachable N s) :
+    ∃ as s' c, NoFault as ∧ run N s as = some s' ∧ Converged N obs s' c ∧
       (∀ d, d < N → (s.nodes d).term < (s'.nodes c).term) ∧
       (s'.nodes c).log = (s.nodes c).log ++ [⟨(s'.nodes c).term, 0⟩] := by
   obtain ⟨c, hc, hmax⟩ := exists_most_up_to_date s hN
-  obtain ⟨as1, s1, hnf1, hrun1, hR1, hr1, hgt1, hterm1, hlog1, hcm1⟩ := elect hR hc hmax
+  obtain ⟨as1, s1, hnf1, hrun1, hR1, hr1, hgt1, hterm1, hlog1, hcm1, hfr1⟩ := elect hR hc hmax
   have hlen : (s1.nodes c).log.length - 1 = (s.nodes c).log.length := by rw [hlog1]; simp
-  obtain ⟨as2, s2, hnf2, hrun2, hconv, hlog2, hterm2⟩ := round hR1 hc hr1 hterm1
+  obtain ⟨as2, s2, hnf2, hrun2, hconv, hlog2, hterm2⟩ := round obs hobs hR1 hc hr1
+    (by
+      intro d hd
+      rcases hd with h | h
+      · rw [hterm1 d h]
+      · obtain ⟨v, hv, hle⟩ := hobsT d h
+        rw [hfr1 d (hobs d h)]
+        exact Nat.le_of_lt (Nat.lt_of_le_of_lt hle (hgt1 v hv)))
     (by rw [hlen]; rw [hlog1]; exact termAt_append_last _ _)
     (by rw [hlen, hcm1]; exact (inv_reachable hR).s.cm_lt c)
   refine ⟨as1 ++ as2, s2, c, hnf1.append hnf2, run_append_some hrun1 hrun2, hconv, ?_, ?_⟩
@@ -222,28 +235,30 @@ theorem no_wedge_run {N : Nat} {s : State} (hN : 0 < N) (hR : Reachable N s) :
   · rw [hlog2, hterm2]; exact hlog1
 
 /-- After convergence a new command submitted to the leader is replicated to, committed and applied
-by every voter (again without any fault action). -/
-theorem converged_progress {N : Nat} {s : State} {c : Nat} (hR : Reachable N s) (hcv : Converged N s c)
-    (cmd : Nat) :
-    ∃ as s', NoFault as ∧ run N s (.clientAppend c cmd :: as) = some s' ∧ Converged N s' c ∧
+by every voter and observer (again without any fault action). -/
+theorem converged_progress {N : Nat} {s : State} {c : Nat} (obs : List Nat) (hobs : ∀ o ∈ obs, N ≤ o)
+    (hR : Reachable N s) (hcv : Converged N obs s c) (cmd : Nat) :
+    ∃ as s', NoFault as ∧ run N s (.clientAppend c cmd :: as) = some s' ∧ Converged N obs s' c ∧
       (s'.nodes c).log = (s.nodes c).log ++ [⟨(s.nodes c).term, cmd⟩] ∧
       (s'.nodes c).term = (s.nodes c).term := by
   obtain ⟨s1, hs1, hfr1, hc1, _⟩ := step_clientAppend (N := N) (s := s) (n := c) (cmd := cmd) hcv.cN hcv.ldr
   have hR1 : Reachable N s1 := Reachable.step hR hs1
   have hLpos := log_pos (inv_reachable hR) c
   have hlen : (s1.nodes c).log.length - 1 = (s.nodes c).log.length := by rw [hc1]; simp
-  obtain ⟨as2, s2, hnf2, hrun2, hconv, hlog2, hterm2⟩ := round (s := s1) hR1 hcv.cN (by rw [hc1]; exact hcv.ldr)
+  obtain ⟨as2, s2, hnf2, hrun2, hconv, hlog2, hterm2⟩ := round (s := s1) obs hobs hR1 hcv.cN
+    (by rw [hc1]; exact hcv.ldr)
     (by
       intro d hd
       by_cases hdc : d = c
-      · subst hdc; rfl
-      · rw [hfr1 d hdc, hc1]; exact hcv.term_eq d hd)
+      · subst hdc; exact Nat.le_refl _
+      · rw [hfr1 d hdc, hc1]; exact Nat.le_of_eq (hcv.term_eq d hd))
     (by rw [hlen]; rw [hc1]; exact termAt_append_last _ _)
-    (by rw [hlen, hc1]; simp only []; rw [hcv.commit_eq c hcv.cN]; omega)
+    (by rw [hlen, hc1]; simp only []; rw [hcv.commit_eq c (Or.inl hcv.cN)]; omega)
   refine ⟨as2, s2, hnf2, run_cons_some hs1 hrun2, hconv, by rw [hlog2, hc1], by rw [hterm2, hc1]⟩
 
 /-- In a converged state nobody else leads the leader's term (voter or observer). -/
-theorem converged_unique_leader {N : Nat} {s : State} {c : Nat} (hR : Reachable N s) (hcv : Converged N s c)
+theorem converged_unique_leader {N : Nat} {s : State} {c : Nat} {obs : List Nat} (hR : Reachable N s)
+    (hcv : Converged N obs s c)
     {n : Nat} (hr : (s.nodes n).role = .leader) (ht : (s.nodes n).term = (s.nodes c).term) : n = c :=
   leaders_unique (inv_reachable hR).e hr hcv.ldr ht
 
